@@ -1,0 +1,135 @@
+//go:build verif
+
+// Contracts for pqueue.go (C04: the deferred-message queue of a channel), checked by nsqvc.
+// Comment-only file. The sift-up / sift-down algorithm is container/heap's; its assumed contract
+// (heap.Push / heap.Pop / heap.Remove, in .trusted/lookup.spec) is stated with the predicates below and
+// relies on Len/Less/Swap/Push/Pop meeting the heap.Interface contract, which is what is PROVED here.
+
+package pqueue
+
+// pqIdx: every slot of the first n holds an item whose back-pointer Index is that slot (hence no duplicates).
+//@ pred pqIdx(pq PriorityQueue, n int) :=
+//@      forall k int :: {pq[k]} 0 <= k && k < n ==> pq[k] != nil && pq[k].Index == k
+// pqOrd(k): the heap edge parent(k) -> k is in order (min-heap on Priority). parent(k) = (k-1)/2, truncated.
+//@ pred pqOrd(pq PriorityQueue, k int) := pq[(k-1)/2].Priority <= pq[k].Priority
+//@ pred pqHeap(pq PriorityQueue, n int) := forall k int :: {pq[k]} 0 < k && k < n ==> pqOrd(pq, k)
+//@ pred pqMember(pq PriorityQueue, n int, m *Item) := m != nil && 0 <= m.Index && m.Index < n && pq[m.Index] == m
+// well formed: back-pointers right, heap ordered, room to grow by doubling (New is called with capacity >= 1).
+//@ pred pqWf(pq PriorityQueue) := pqIdx(pq, len(pq)) && pqHeap(pq, len(pq)) && cap(pq) >= 1
+
+//@ func New(capacity int) PriorityQueue
+//@   props C04
+//@   requires capacity >= 0
+//@   ensures len(result) == 0 && cap(result) == capacity && fresh(result)
+//@   modifies
+
+// heap.Interface (sort.Interface part).
+//@ func (pq PriorityQueue) Len() int
+//@   props C04
+//@   ensures result == len(pq)
+//@   modifies
+
+// Less: strict order on Priority (the earliest deadline is the root).
+//@ func (pq PriorityQueue) Less(i, j int) bool
+//@   props C04
+//@   requires 0 <= i && i < len(pq) && 0 <= j && j < len(pq) && pq[i] != nil && pq[j] != nil
+//@   ensures result == (pq[i].Priority < pq[j].Priority)
+//@   modifies
+
+// Swap exchanges two slots and keeps the Index back-pointers right.
+//@ func (pq PriorityQueue) Swap(i, j int)
+//@   props C04
+//@   requires 0 <= i && i < len(pq) && 0 <= j && j < len(pq)
+//@   requires pq[i] != nil && pq[j] != nil && (i != j ==> pq[i] != pq[j])
+//@   ensures[swapped] pq[i] == old(pq[j]) && pq[j] == old(pq[i])
+//@   ensures[back-pointers] pq[i].Index == i && pq[j].Index == j
+//@   ensures[others] forall k int :: {pq[k]} 0 <= k && k < len(pq) && k != i && k != j ==> pq[k] == old(pq[k])
+//@   modifies elems(pq), pq[i].Index, pq[j].Index
+
+// heap.Interface.Push: "add x as element Len()". x must be a non-nil *Item that is not queued yet.
+// Queues stay far below 2^62 entries (needed for `c*2`).
+//@ func (pq *PriorityQueue) Push(x interface{})
+//@   props C04
+//@   ghostparam gm *Item
+//@   requires pq != nil && dyntype(x) == typetag("*Item") && unbox(x, "*Item") != nil
+//@   requires pqIdx(*pq, len(*pq)) && cap(*pq) >= 1 && cap(*pq) <= 4611686018427387903
+//@   requires[not-queued] forall k int :: {(*pq)[k]} 0 <= k && k < len(*pq) ==> (*pq)[k] != unbox(x, "*Item")
+//@   ensures[appended] len(*pq) == old(len(*pq)) + 1 && (*pq)[old(len(*pq))] == unbox(x, "*Item") && unbox(x, "*Item").Index == old(len(*pq))
+//@   ensures[prefix] forall k int :: {(*pq)[k]} 0 <= k && k < old(len(*pq)) ==> (*pq)[k] == old((*pq)[k])
+//@   ensures[back-pointers] pqIdx(*pq, len(*pq)) && cap(*pq) >= 1
+//@   ensures[others] gm != unbox(x, "*Item") ==> gm.Index == old(gm.Index)
+//@   modifies *pq, elems(*pq), unbox(x, "*Item").Index
+
+// heap.Interface.Pop: "remove and return element Len() - 1"; the item leaves with Index -1.
+//@ func (pq *PriorityQueue) Pop() interface{}
+//@   props C04
+//@   ghostparam gm *Item
+//@   requires pq != nil && len(*pq) >= 1 && pqIdx(*pq, len(*pq)) && cap(*pq) >= 1
+//@   ensures[last] dyntype(result) == typetag("*Item") && unbox(result, "*Item") == old((*pq)[len(*pq) - 1])
+//@   ensures[unindexed] unbox(result, "*Item").Index == -1
+//@   ensures[shrinks] len(*pq) == old(len(*pq)) - 1 && cap(*pq) >= 1
+//@   ensures[prefix] forall k int :: {(*pq)[k]} 0 <= k && k < len(*pq) ==> (*pq)[k] == old((*pq)[k])
+//@   ensures[back-pointers] pqIdx(*pq, len(*pq))
+//@   ensures[others] gm != unbox(result, "*Item") ==> gm.Index == old(gm.Index)
+//@   modifies *pq, elems(*pq), Item.Index
+
+// PeekAndShift(max): hands out the root only if its Priority (deadline) is <= max - never early -
+// otherwise nothing, with the queue untouched and the time still to wait.
+//@ func (pq *PriorityQueue) PeekAndShift(max int64) (*Item, int64)
+//@   props C04
+//@   ghostparam gm *Item
+//@   requires pq != nil && pqWf(*pq)
+//@   ensures[never-early] result0 != nil ==> result0.Priority <= max
+//@   ensures[root] result0 != nil ==> result0 == old((*pq)[0]) && result0.Index == -1 && len(*pq) == old(len(*pq)) - 1 && result1 == 0
+//@   ensures[due-is-returned] old(len(*pq)) > 0 && old((*pq)[0].Priority) <= max ==> result0 != nil
+//@   ensures[nothing] result0 == nil ==> *pq == old(*pq) && (len(*pq) == 0 || (*pq)[0].Priority > max)
+//@   ensures[nothing-unchanged] result0 == nil ==> gm.Index == old(gm.Index) && gm.Priority == old(gm.Priority) && (forall k int :: {(*pq)[k]} 0 <= k && k < len(*pq) ==> (*pq)[k] == old((*pq)[k]))
+//@   ensures[wait] result0 == nil && len(*pq) > 0 && (*pq)[0].Priority - max <= 9223372036854775807 ==> result1 == (*pq)[0].Priority - max
+//@   ensures[wf] pqWf(*pq)
+//@   ensures[members] result0 != nil && gm != result0 ==> (pqMember(*pq, len(*pq), gm) <==> old(pqMember(*pq, len(*pq), gm)))
+//@   ensures[others] result0 != nil && gm != result0 && !old(pqMember(*pq, len(*pq), gm)) ==> gm.Index == old(gm.Index)
+//@   modifies *pq, elems(*pq), Item.Index
+
+// ---------------------------------------------------------------------------------------------
+// container/heap on *PriorityQueue (ASSUMED library contracts; they live in this file rather than in a
+// .spec file because their frame `Item.Index` and the predicates must resolve in package pqueue also when
+// the caller is package nsqd - see ENGINE GAPS in NOTES.md).
+//@ fn hq(h heap.Interface) *PriorityQueue := unbox(h, "*PriorityQueue")
+//@ fn it(x any) *Item := unbox(x, "*Item")
+// Assumed: container/heap implements the binary-heap algorithms correctly for any h whose
+// Len/Less/Swap/Push/Pop meet the heap.Interface contract (proved for *pqueue.PriorityQueue above). The contracts are stated for that implementation only
+// (the `requires dyntype` makes any other use an unprovable obligation rather than a silent assumption);
+// the same statements are PROVED for nsqd's hand-written copy of the algorithm (inFlightPqueue).
+// gm: an arbitrary item (ghost) - membership of every other item is preserved.
+//@ extern container/heap.Push(h, x)
+//@   ghostparam gm *Item
+//@   requires dyntype(h) == typetag("*PriorityQueue") && hq(h) != nil
+//@   requires dyntype(x) == typetag("*Item") && it(x) != nil
+//@   requires pqWf(*hq(h)) && cap(*hq(h)) <= 4611686018427387903
+//@   requires[not-queued] forall k int :: {(*hq(h))[k]} 0 <= k && k < len(*hq(h)) ==> (*hq(h))[k] != it(x)
+//@   ensures pqWf(*hq(h)) && len(*hq(h)) == old(len(*hq(h))) + 1
+//@   ensures[added] pqMember(*hq(h), len(*hq(h)), it(x))
+//@   ensures[members] gm != it(x) ==> (pqMember(*hq(h), len(*hq(h)), gm) <==> old(pqMember(*hq(h), len(*hq(h)), gm)))
+//@   ensures[others] gm != it(x) && !old(pqMember(*hq(h), len(*hq(h)), gm)) ==> gm.Index == old(gm.Index)
+//@   modifies *hq(h), elems(*hq(h)), Item.Index
+
+//@ extern container/heap.Remove(h, i) (x)
+//@   ghostparam gm *Item
+//@   requires dyntype(h) == typetag("*PriorityQueue") && hq(h) != nil
+//@   requires pqWf(*hq(h)) && 0 <= i && i < len(*hq(h))
+//@   ensures[removed] dyntype(x) == typetag("*Item") && it(x) == old((*hq(h))[i]) && it(x).Index == -1
+//@   ensures pqWf(*hq(h)) && len(*hq(h)) == old(len(*hq(h))) - 1
+//@   ensures[members] gm != it(x) ==> (pqMember(*hq(h), len(*hq(h)), gm) <==> old(pqMember(*hq(h), len(*hq(h)), gm)))
+//@   ensures[others] gm != it(x) && !old(pqMember(*hq(h), len(*hq(h)), gm)) ==> gm.Index == old(gm.Index)
+//@   modifies *hq(h), elems(*hq(h)), Item.Index
+
+// heap.Pop = Remove(h, 0): the minimum.
+//@ extern container/heap.Pop(h) (x)
+//@   ghostparam gm *Item
+//@   requires dyntype(h) == typetag("*PriorityQueue") && hq(h) != nil
+//@   requires pqWf(*hq(h)) && len(*hq(h)) >= 1
+//@   ensures[min] dyntype(x) == typetag("*Item") && it(x) == old((*hq(h))[0]) && it(x).Index == -1
+//@   ensures pqWf(*hq(h)) && len(*hq(h)) == old(len(*hq(h))) - 1
+//@   ensures[members] gm != it(x) ==> (pqMember(*hq(h), len(*hq(h)), gm) <==> old(pqMember(*hq(h), len(*hq(h)), gm)))
+//@   ensures[others] gm != it(x) && !old(pqMember(*hq(h), len(*hq(h)), gm)) ==> gm.Index == old(gm.Index)
+//@   modifies *hq(h), elems(*hq(h)), Item.Index
